@@ -301,6 +301,25 @@ func (ex *Exec) execAssign(s *ast.AssignStmt, st *State) {
 		ex.storeLV(st, lv, v)
 		return
 	}
+	// v[i] = x for a slice variable of unknown length
+	if s.Tok == token.ASSIGN && len(s.Lhs) == 1 && len(s.Rhs) == 1 {
+		if ix, ok := ast.Unparen(s.Lhs[0]).(*ast.IndexExpr); ok {
+			if _, isSlice := ex.typeOf(ix.X).Underlying().(*types.Slice); isSlice {
+				if id, ok := ast.Unparen(ix.X).(*ast.Ident); ok {
+					if obj, ok := ex.objOf(id).(*types.Var); ok {
+						if l := ex.cur().env.Lookup(obj); l != nil {
+							if _, isSym := ex.load(st, l).(*SymSliceV); isSym {
+								val := ex.convertAssign(ex.evalTo(s.Rhs[0], st, ex.typeOf(s.Lhs[0])), ex.typeOf(s.Lhs[0]), st)
+								if ex.symElemStore(st, ix, val) {
+									return
+								}
+							}
+						}
+					}
+				}
+			}
+		}
+	}
 	var vals []Value
 	if len(s.Rhs) == 1 && len(s.Lhs) > 1 {
 		v := ex.evalMulti(s.Rhs[0], st, len(s.Lhs))
